@@ -183,7 +183,12 @@ def build_layer(case, extra=False, collide=None):
                           metrics=[Metric(name=l["name"], agg="sum", sql="c0") for l in case["leaves"]] + [Metric(name="zz_only", agg="max", sql="c1")]))
         L.add_metric(Metric(name="unrelated_total", type="derived", sql="zz.zz_only * 2"))
         L.add_metric(Metric(name="unrelated_ratio", type="ratio", numerator="zz.zz_only", denominator="zz.zz_only"))
-    if collide:
+    if collide == "ALL":
+        # graph-level metrics spelled like EVERY metric of t -- measures, ratios, derived and inline metrics alike -- each with another formula: unqualified component
+        # names inside t's composites still mean t's own metrics, whatever their type
+        for nm in [l["name"] for l in case["leaves"]] + [x["name"] for x in case["comps"]]:
+            L.add_metric(Metric(name=nm, type="derived", sql="zz.zz_only + 1000"))
+    elif collide:
         L.add_metric(Metric(name=collide, type="derived", sql="zz.zz_only + 1000") if extra else Metric(name=collide, type="derived", sql="u.ucnt + 1000"))
     return L
 
@@ -432,7 +437,7 @@ def run(c):
         if not info["queries"] or i % 2:
             continue
         try:
-            L2 = build_layer(case, extra=True)
+            L2 = build_layer(case, extra=True, collide=("ALL" if i % 4 == 0 else None))
         except Exception as e:
             c.violation("adding an unrelated model makes the definitions fail: %s" % str(e)[:140], {"kind": "case", "case": case, "extra": True})
             continue
